@@ -19,6 +19,9 @@ import (
 // natively through the call-site rewrite to verifHookDiskqueueNew (engine/instrument.go).
 
 type verifDisk struct {
+	// files: the name has queue files on disk (written by Put, removed ONLY by Empty - like
+	// go-diskqueue, whose Delete just closes the queue)
+	files         map[string]bool
 	open          map[string]int
 	handles       []*verifNamedBackend
 	doubleOpen    int
@@ -39,12 +42,26 @@ func (b *verifNamedBackend) release() {
 	}
 }
 func (b *verifNamedBackend) Close() error { b.release(); return b.verifBackend.Close() }
+func (b *verifNamedBackend) Put(p []byte) error {
+	err := b.verifBackend.Put(p)
+	if err == nil {
+		b.d.files[b.name] = true
+	}
+	return err
+}
+func (b *verifNamedBackend) Empty() error {
+	b.d.files[b.name] = false
+	return b.verifBackend.Empty()
+}
 func (b *verifNamedBackend) Delete() error {
 	b.release()
 	if b.d.open[b.name] > 0 {
 		b.d.deletedOthers++
 	}
-	return b.verifBackend.Delete()
+	b.closed++
+	b.deleted++
+	b.items = nil
+	return nil
 }
 
 var verifDiskHook func(name string) diskqueue.Interface
@@ -62,7 +79,7 @@ func (d *verifDisk) new(name string) diskqueue.Interface {
 }
 
 func verifNewDisk() *verifDisk {
-	d := &verifDisk{open: map[string]int{}}
+	d := &verifDisk{open: map[string]int{}, files: map[string]bool{}}
 	verifDiskHook = d.new
 	verifrt.Stub("github.com/nsqio/go-diskqueue.New", verifHookDiskqueueNew)
 	return d
@@ -105,6 +122,11 @@ func (d *verifDisk) assertNoLeak(n *NSQD, tag string) {
 	for _, b := range d.handles {
 		if b.isOpen {
 			verifrt.Assert(r[b], tag+":no-disk-queue-left-behind-by-a-deleted-object")
+		}
+	}
+	for _, b := range d.handles {
+		if !r[b] && d.open[b.name] == 0 {
+			verifrt.Assert(!d.files[b.name], tag+":deleted-object-leaves-no-disk-files")
 		}
 	}
 	verifrt.Assert(d.doubleOpen == 0, tag+":one-disk-queue-per-name-at-a-time")
@@ -305,4 +327,44 @@ func VerifC08_ChannelDeleteVsTopicDelete() {
 	verifrt.Assert(!still, tag+":topic-is-gone")
 	disk.assertNoLeak(n, tag)
 	verifrt.Reach("deleted-both:"+tag, doneC && doneT)
+}
+
+// Deleting a topic removes its disk files and those of its channels - also when the disk backlog
+// had already been drained (files exist, depth 0) or was never used; a re-created topic then
+// starts with no files and no messages.
+func VerifC08_TopicDeleteRemovesDiskFiles() { verifrt.Atomic(verifC08TopicDeleteFiles) }
+
+func verifC08TopicDeleteFiles() {
+	o := verifOpts()
+	o.MemQueueSize = 1
+	n := verifShellNSQD(o)
+	disk := verifNewDisk()
+	verifrt.StubNative("(*github.com/nsqio/nsq/nsqd.NSQD).Notify", verifNotifyNop)
+	verifConcreteIDs, verifIDSeq = true, 0
+	t := n.GetTopic("t")
+	c := t.GetChannel("ch")
+	// backlog: 0..2 messages each on the topic and on the channel (the first stays in memory)
+	kt, kc := verifrt.Choice("topic-backlog", 3), verifrt.Choice("channel-backlog", 3)
+	verifrt.Join()
+	tb, cb := t.backend.(*verifNamedBackend), c.backend.(*verifNamedBackend)
+	for i := 0; i < kt; i++ {
+		writeMessageToBackend(verifMsg("tm", 1), t.backend)
+	}
+	for i := 0; i < kc; i++ {
+		c.PutMessage(verifMsg("cm", 1))
+	}
+	// drained: the records were read back (delivered), the files stay behind with depth 0
+	if verifrt.Choice("drained", 2) == 1 {
+		tb.items, cb.items = nil, nil
+	}
+	hadTopicFiles, hadChanFiles := disk.files["t"], disk.files["t:ch"]
+	verifrt.Assert(n.DeleteExistingTopic("t") == nil, "topic-delete-succeeds")
+	verifrt.Join()
+	verifrt.Assert(!disk.files["t"], "deleted-topic-leaves-no-disk-files")
+	verifrt.Assert(!disk.files["t:ch"], "deleted-topic-leaves-no-channel-disk-files")
+	disk.assertNoLeak(n, "topic-delete")
+	t2 := n.GetTopic("t")
+	verifrt.Join()
+	verifrt.Assert(t2 != t && t2.Depth() == 0 && len(t2.channelMap) == 0, "re-created-topic-starts-empty")
+	verifrt.Reach("deleted-a-drained-topic-with-files", hadTopicFiles && hadChanFiles && tb.Depth() == 0)
 }
